@@ -85,7 +85,7 @@ SignFamily ==      \* what is signed and how the token answers
       ks \in {"rsa", "ec"}, pg \in BOOLEAN, sg \in SeqsUpTo(SignMechs \X SignFaults, MaxSigns)}
 
 MgmtOps == {"gen-rsa", "gen-ec", "gen-rsa-fallback", "gen-err", "gen-nolabel", "gen-bad-bits",
-            "imp-rsa", "imp-ec", "imp-priv-refused", "imp-priv-err", "imp-pub-err", "imp-nolabel"}
+            "imp-rsa", "imp-ec", "imp-priv-wrapped", "imp-wrap-err", "imp-priv-refused", "imp-priv-err", "imp-pub-err", "imp-nolabel"}
 CertOps == {"key", "key-err", "token", "token-nolabel"}
 MgmtFamily ==      \* key generation / import and certificate import instead of GetKey + Sign
   {[Plain EXCEPT !.mgmt = m, !.certs = cs] : m \in MgmtOps, cs \in SeqsUpTo(CertOps, 3)}
@@ -102,7 +102,7 @@ Knobs ==
         /\ c.loginrv # "normal" => (c.pin = "right" /\ c.tries0 = 3)
         /\ c.keyshape \notin {"rsa", "ec"} => (c.findfault = "none" /\ c.keysel = "label")
         /\ c.keysel # "label" => c.findfault = "none"
-        /\ c.mgmt \notin {"gen-rsa", "gen-ec", "gen-rsa-fallback", "imp-rsa", "imp-ec"} => c.certs = <<>>}
+        /\ c.mgmt \notin {"gen-rsa", "gen-ec", "gen-rsa-fallback", "imp-rsa", "imp-ec", "imp-priv-wrapped"} => c.certs = <<>>}
 
 Out(call, r) == [call |-> call, result |-> r]
 
@@ -293,11 +293,26 @@ Mgmt ==
                      \o NewKeyLookup("imp", m = "imp-ec"), 1, 1)
           [] m = "imp-pub-err" -> bad(Append(tr, Ev("CreateObject", "class=pub label=imp id=random", "DEVICE_ERROR")), "import-failed")
           [] OTHER ->
-               \* the private half cannot be created: the public half made a moment ago is removed again
-               \* (deviation "LeaveOrphan": it is left behind)
-               bad(tr \o <<Ev("CreateObject", "class=pub label=imp id=random", "OK"),
-                           Ev("CreateObject", "class=priv label=imp id=random", IF m = "imp-priv-refused" THEN "TEMPLATE_INCONSISTENT" ELSE "DEVICE_ERROR")>>
-                      \o (IF Variant = "LeaveOrphan" THEN <<>> ELSE <<Ev("DestroyObject", "", "OK")>>), "import-failed")
+               \* the private half cannot be created directly. CKR_TEMPLATE_INCONSISTENT sends Import down the wrapping path
+               \* (importPkcs8: a temporary 3DES key, the PKCS#8 blob encrypted under it, C_UnwrapKey, the temporary key
+               \* destroyed); any other error, or a failure on that path, removes the public half made a moment ago
+               \* (deviation "LeaveOrphan": it is left behind; "WrapResultLost": a successful unwrap is still reported as the
+               \* refusal that led to it, and the public half removed)
+               LET pubOK == Ev("CreateObject", "class=pub label=imp id=random", "OK")
+                   priv(rv) == Ev("CreateObject", "class=priv label=imp id=random", rv)
+                   destroy == IF Variant = "LeaveOrphan" THEN <<>> ELSE <<Ev("DestroyObject", "", "OK")>>
+                   wrapHead == <<Ev("GenerateKey", "mech=0x131", "OK"), Ev("EncryptInit", "mech=0x136", "OK"), Ev("Encrypt", "", "OK")>>
+                   unwrap(rv) == Ev("UnwrapKey", "mech=0x136 class=priv label=imp id=random", rv)
+               IN CASE m = "imp-priv-err" -> bad(tr \o <<pubOK, priv("DEVICE_ERROR")>> \o destroy, "import-failed")
+                    [] m = "imp-priv-refused" ->     \* a token that cannot make the temporary key either
+                         bad(tr \o <<pubOK, priv("TEMPLATE_INCONSISTENT"), Ev("GenerateKey", "mech=0x131", "FUNCTION_NOT_SUPPORTED")>> \o destroy, "import-failed")
+                    [] m = "imp-wrap-err" ->
+                         bad(tr \o <<pubOK, priv("TEMPLATE_INCONSISTENT")>> \o wrapHead \o <<unwrap("DEVICE_ERROR"), Ev("DestroyObject", "", "OK")>> \o destroy, "import-failed")
+                    [] OTHER ->                      \* imp-priv-wrapped
+                         IF Variant = "WrapResultLost"
+                         THEN /\ tr' = tr \o <<pubOK, priv("TEMPLATE_INCONSISTENT")>> \o wrapHead \o <<unwrap("OK"), Ev("DestroyObject", "", "OK"), Ev("DestroyObject", "", "OK")>>
+                              /\ out' = Append(out, Out("mgmt", "import-failed")) /\ inv' = [inv EXCEPT !.priv = 1] /\ pc' = "close"
+                         ELSE ok(tr \o <<pubOK, priv("TEMPLATE_INCONSISTENT")>> \o wrapHead \o <<unwrap("OK"), Ev("DestroyObject", "", "OK")>> \o NewKeyLookup("imp", FALSE), 1, 1)
   /\ UNCHANGED <<k, asked, cur, tries, logged, sess, nsign>>
 
 \* ImportCertificate on the key (certs.go Key.ImportCertificate) or on the token with a label base
@@ -364,7 +379,7 @@ OpenFirst ==
 NoOrphanKey ==
   /\ inv.pub = inv.priv
   /\ \A i \in 1..Len(tr) : (tr[i].fn = "CreateObject" /\ tr[i].arg = "class=priv label=imp id=random" /\ tr[i].rv # "OK") =>
-        (pc \in {"close", "closed"} => \E j \in (i+1)..Len(tr) : tr[j].fn = "DestroyObject" /\ tr[j].rv = "OK")
+        (pc \in {"close", "closed"} => (\E j \in (i+1)..Len(tr) : tr[j].fn = "DestroyObject" /\ tr[j].rv = "OK") \/ inv.priv = 1)
 
 \* a certificate is never written twice for the same key / chain label
 CertOnce == inv.keycert <= 1 /\ inv.chaincert <= 1
